@@ -7,7 +7,7 @@ import json, os, shutil, subprocess, sys, time
 wt, prop, name = sys.argv[1:4]
 pkgdir = sys.argv[4] if len(sys.argv) > 4 else "."
 V = "/verif"; R = "/repo"
-env = dict(os.environ, GOFLAGS="-mod=mod", GOPROXY="off", GOSUMDB="off", GOTOOLCHAIN="local")
+env = dict(os.environ, GOFLAGS="-mod=mod", GOPROXY="off", GOSUMDB="off", GOTOOLCHAIN="local", GOVC_EVIDENCE_DIR="/tmp/govc-seed-evidence")
 dst = os.path.join(V, "seeded", name)
 os.makedirs(dst, exist_ok=True)
 for f in ("patch.diff", "zz_seeded_demo_test.go", "notes.md"):
